@@ -371,6 +371,8 @@ func runRandom(c *mon.Case, protein bool) {
 		alpha = ntIUPAC
 	} else if r.Chance(0.2) {
 		alpha = "AC" // low complexity: many ties, many equally good paths
+	} else if r.Chance(0.15) {
+		alpha = "ACGTNX" // N and X are two different letters (they share one row of the nucleotide matrix)
 	}
 	maxL := 60
 	if c.Tier == "thorough" && r.Chance(0.1) {
@@ -558,6 +560,7 @@ func runWitness(c *mon.Case) {
 		{"EF", "EQLF", scheme{"blosum62", 0, 0, -3.25, -0.25}},
 		{"EQLF", "EF", scheme{"blosum62", 0, 0, -3.25, -0.25}},
 		{"AKEYFWDLVVNIPDNMAHIN", "EM", scheme{"blosum62", 0, 0, -1.25, -0.25}},
+		{"AANAA", "AAXAA", def}, // N facing X is a mismatch under match / mismatch scoring
 		{"C", "G", def}, // no positive local alignment at all
 		{"acgtNNacgt", "ACGTACGT", scheme{"dnafull", 0, 0, -3, -1}},
 	}
@@ -605,7 +608,7 @@ func main() {
 	mon.Floor("cli:nucleotide", 120)
 	mon.Floor("cli:alignment-with-gap", 15)
 	mon.Main("C09", []mon.Sub{
-		{Name: "witness", Quick: 15, Thorough: 15, Run: runWitness},
+		{Name: "witness", Quick: 16, Thorough: 16, Run: runWitness},
 		{Name: "tables", Quick: 2, Thorough: 2, Run: runTables},
 		{Name: "exhaustive", Quick: len(exhSchemes) * len(exhStrings), Thorough: len(exhSchemes) * len(exhStrings), Run: runExhaustive},
 		{Name: "exhaustive-matrix", Quick: nExhMatrixCases(), Thorough: nExhMatrixCases(), Run: runExhaustiveMatrix},
